@@ -454,6 +454,12 @@ func (g *vgen) fillField(f *field, v reflect.Value) {
 				v.Index(i).Set(g.prim(f.prim, hint{}))
 			}
 		}
+	case kArrayComp:
+		if !zero {
+			for i := 0; i < v.Len(); i++ {
+				g.fillField(f.elem, v.Index(i)) // every element filled or left zero on its own
+			}
+		}
 	case kConfig:
 		if !zero {
 			tree := g.cfgTree(r.Intn(4) == 0)
@@ -595,6 +601,26 @@ func (g *vgen) cfgField(f *field, pre reflect.Value, stats *cfgStats) *cval {
 		c := &cval{form: "list"}
 		for i := 0; i < f.typ.Len(); i++ {
 			c.list = append(c.list, g.setting(f.prim, hint{}))
+		}
+		return c
+	case kArrayComp:
+		// all N elements have to be given; each mentions a part of what the
+		// element holds (some fields / some keys / a list of another length)
+		stats.mentioned++
+		c := &cval{form: "list"}
+		var dummy cfgStats
+		for i := 0; i < f.typ.Len(); i++ {
+			var e reflect.Value
+			if pre.IsValid() {
+				e = pre.Index(i)
+			}
+			var ec *cval
+			if f.elem.kind == kStruct {
+				ec = g.cfgStruct(f.elem.sub, e, true, &dummy)
+			} else {
+				ec = g.cfgField(f.elem, e, &dummy)
+			}
+			c.list = append(c.list, ec)
 		}
 		return c
 	case kSliceStruct:
